@@ -245,10 +245,12 @@ def tr_consts():
 
 # ---------------------------------------------------------------- gen/Preds.v
 
-def expr_to_coq(e, env):
-    """Integer / boolean expressions over self.start/end, other.start/end and local names."""
-    if isinstance(e, ast.Attribute) and isinstance(e.value, ast.Name) and e.value.id in ('self', 'other', 's') and e.attr in ('start', 'end'):
-        who = 'a' if e.value.id in ('self', 's') else 'b'
+def expr_to_coq(e, env, first=('self', 's'), second=('other',)):
+    """Integer / boolean expressions over the start / end of the first token (self, or the lambda's parameter) and of the
+    second one (the other parameter of the method), and local names. Parameter names are taken from the source."""
+    rec = lambda x, env=env: expr_to_coq(x, env, first, second)
+    if isinstance(e, ast.Attribute) and isinstance(e.value, ast.Name) and e.value.id in tuple(first) + tuple(second) and e.attr in ('start', 'end'):
+        who = 'a' if e.value.id in first else 'b'
         return '(%s%s)' % (who, 's' if e.attr == 'start' else 'e')
     if isinstance(e, ast.Name):
         if e.id in env:
@@ -258,20 +260,20 @@ def expr_to_coq(e, env):
         return '(%d)' % e.value
     if isinstance(e, ast.BinOp) and isinstance(e.op, (ast.Add, ast.Sub, ast.Mult)):
         op = {ast.Add: '+', ast.Sub: '-', ast.Mult: '*'}[type(e.op)]
-        return '(%s %s %s)' % (expr_to_coq(e.left, env), op, expr_to_coq(e.right, env))
+        return '(%s %s %s)' % (rec(e.left), op, rec(e.right))
     if isinstance(e, ast.UnaryOp) and isinstance(e.op, ast.USub):
-        return '(- %s)' % expr_to_coq(e.operand, env)
+        return '(- %s)' % rec(e.operand)
     if isinstance(e, ast.UnaryOp) and isinstance(e.op, ast.Not):
-        return '(negb %s)' % expr_to_coq(e.operand, env)
+        return '(negb %s)' % rec(e.operand)
     if isinstance(e, ast.BoolOp):
         op = '&&' if isinstance(e.op, ast.And) else '||'
-        return '(' + (' %s ' % op).join(expr_to_coq(v, env) for v in e.values) + ')'
+        return '(' + (' %s ' % op).join(rec(v) for v in e.values) + ')'
     if isinstance(e, ast.Compare):
         parts = []
         left = e.left
         for op, right in zip(e.ops, e.comparators):
             sym = {ast.Lt: '<?', ast.LtE: '<=?', ast.Eq: '=?'}.get(type(op))
-            l, r = expr_to_coq(left, env), expr_to_coq(right, env)
+            l, r = rec(left), rec(right)
             if sym:
                 parts.append('(%s %s %s)' % (l, sym, r))
             elif isinstance(op, ast.Gt):
@@ -284,9 +286,9 @@ def expr_to_coq(e, env):
         return '(' + ' && '.join(parts) + ')'
     if isinstance(e, ast.Call) and isinstance(e.func, ast.Name) and e.func.id == 'len' and len(e.args) == 1:
         a = e.args[0]
-        if isinstance(a, ast.Name) and a.id in ('self', 's'):
+        if isinstance(a, ast.Name) and a.id in first:
             return '(g_len as_ ae)'
-        if isinstance(a, ast.Name) and a.id == 'other':
+        if isinstance(a, ast.Name) and a.id in second:
             return '(g_len bs be)'
     raise Unsupported('expression %s' % ast.dump(e)[:80])
 
@@ -294,15 +296,17 @@ def expr_to_coq(e, env):
 def method_return(fn):
     """The method body as local integer assignments followed by one return."""
     env = {}
+    params = [a.arg for a in fn.args.args]
+    first, second = tuple(params[:1]), tuple(params[1:2])
     body = [s for s in fn.body if not (isinstance(s, ast.Expr) and isinstance(s.value, ast.Constant))]
     for st in body[:-1]:
         if isinstance(st, ast.Assign) and len(st.targets) == 1 and isinstance(st.targets[0], ast.Name):
-            env[st.targets[0].id] = expr_to_coq(st.value, env)
+            env[st.targets[0].id] = expr_to_coq(st.value, env, first, second)
         else:
             raise Unsupported('%s: statement %s' % (fn.name, type(st).__name__))
     if not isinstance(body[-1], ast.Return):
         raise Unsupported('%s: no final return' % fn.name)
-    return expr_to_coq(body[-1].value, env)
+    return expr_to_coq(body[-1].value, env, first, second)
 
 
 def tr_preds():
@@ -321,19 +325,39 @@ def tr_preds():
         if isinstance(st, ast.Lambda):
             if not isinstance(st.body, ast.Tuple) or len(st.body.elts) != 2:
                 raise Unsupported('sort key')
-            key = [sub(expr_to_coq(x, {})) for x in st.body.elts]
+            lam = tuple(a.arg for a in st.args.args)
+            if len(lam) != 1:
+                raise Unsupported('sort key lambda parameters')
+            key = [sub(expr_to_coq(x, {}, lam, ())) for x in st.body.elts]
     if not key:
         raise Unsupported('sort key lambda not found')
     lines.append('Definition g_sort_key (as_ ae : Z) : Z * Z := (%s, %s).' % (key[0], key[1]))
     # filter_overlapping: which comparison decides a length tie
     fo = find_func(ac, 'filter_overlapping')
+    # the names of the current and of the next token are read from "x = tokens[i]" / "y = tokens[j]" with "j = i + 1"
+    idx_of, succ = {}, {}
+    for st in ast.walk(fo):
+        if isinstance(st, ast.Assign) and len(st.targets) == 1 and isinstance(st.targets[0], ast.Name):
+            v = st.value
+            if isinstance(v, ast.Subscript) and isinstance(v.slice, ast.Name):
+                idx_of[st.targets[0].id] = v.slice.id
+            if (isinstance(v, ast.BinOp) and isinstance(v.op, ast.Add) and isinstance(v.left, ast.Name)
+                    and isinstance(v.right, ast.Constant) and v.right.value == 1):
+                succ[st.targets[0].id] = v.left.id
+    role = {}
+    for name, ix in idx_of.items():
+        role[name] = 'next' if ix in succ else 'curr'
     tie = None
     for st in ast.walk(fo):
-        if isinstance(st, ast.Compare) and isinstance(st.left, ast.Call) and getattr(st.left.func, 'id', '') == 'len':
+        if (isinstance(st, ast.Compare) and isinstance(st.left, ast.Call) and getattr(st.left.func, 'id', '') == 'len'
+                and len(st.comparators) == 1 and isinstance(st.comparators[0], ast.Call)
+                and isinstance(st.left.args[0], ast.Name) and isinstance(st.comparators[0].args[0], ast.Name)):
             a, b = st.left.args[0].id, st.comparators[0].args[0].id
             op = type(st.ops[0]).__name__
-            tie = (a, op, b)
-    if tie != ('curr_tok', 'GtE', 'next_tok'):
+            tie = (role.get(a), op, role.get(b))
+    if tie == ('next', 'LtE', 'curr'):
+        tie = ('curr', 'GtE', 'next')
+    if tie != ('curr', 'GtE', 'next'):
         raise Unsupported('filter_overlapping length comparison is %r' % (tie,))
     lines.append('Definition g_keep_curr (lcurr lnext : Z) : bool := (lnext <=? lcurr).')
     return '\n'.join(lines) + '\n'
